@@ -42,8 +42,8 @@ def jobs(tier):
                      bounds=f"all byte strings of length 0..{n} (full alphabet), offsets 0..{pre}; unwind {n+5}",
                      shape=f"signature, N={n}", cost=n * 4))
     SREAL = ["dbus/dbus-list.c", "dbus/dbus-string.c", "dbus/dbus-marshal-validate.c"]
-    J.append(Job(name="e.request_name.short", group="C16.e", harness="harness/C16_acquire.c", defines={"MODE": 0}, real=SREAL, env=COMMON_ENV,
-                 checks="assert", unwind=9, unwindset=["vf_err_is.0:66"], timeout=600,
+    J.append(Job(name="e.request_name.short", group="C16.e", harness="harness/C16_acquire.c", defines={"MODE": 0}, real=SREAL, env=COMMON_ENV + ["memfuncs.c"],
+                 checks="assert", unwind=9, unwindset=["vf_err_is.0:66", "memcpy.0:10", "memmove.0:10", "memmove.1:10"], timeout=600,
                  encodes=["bus_registry_acquire_service", "bus_registry_release_service", "_dbus_validate_bus_name"],
                  bounds="every name of 0..5 arbitrary bytes, RequestName and ReleaseName", shape="name-request route, short names"))
     for ln in (254, 255, 256):
